@@ -151,6 +151,30 @@ static void sink_case(int shape, const Values &v, const S &fmt)
             vrt::violation("C17:printf:differs-from-format", sfmt("%s got=%s want=%s", ctx.c_str(), show(S(mem, msz)).c_str(), show(want).c_str()));
         free(mem);
     }
+    // one case in four: a real file opened for writing whose sticky error indicator was set by an earlier failed read
+    // (it still accepts writes): the sink's output is specified by its bytes, not by the stream's flags
+    if (vrt::fnv1a(fmt.data(), fmt.size(), 0x51) % 4 == 0) {
+        const std::string path = vrt::opt().outdir + sfmt("/w%d.sink", vrt::opt().worker);
+        FILE *fp = fopen(path.c_str(), "w");
+        if (!fp) { fprintf(stderr, "vrt: cannot create %s\n", path.c_str()); _exit(98); }
+        (void)fgetc(fp);
+        const bool flagged = ferror(fp) != 0;
+        vrt::evals();
+        bool threw = false;
+        try {
+            call_shape(shape, v, f.data(), nullptr, [&](const char *fs, auto &&...a) { ST::printf(fp, fs, a...); });
+        } catch (const std::exception &e) {
+            threw = true;
+            vrt::violation(sfmt("C17:printf(file with error indicator):threw:%s", vrt::demangle(typeid(e).name()).c_str()), ctx + " " + e.what());
+        }
+        fclose(fp);
+        S got;
+        if (FILE *in = fopen(path.c_str(), "r")) { char buf[4096]; size_t k; while ((k = fread(buf, 1, sizeof(buf), in)) > 0) got.append(buf, k); fclose(in); }
+        unlink(path.c_str());
+        if (!threw && got != want)
+            vrt::violation("C17:printf(file with error indicator):differs-from-format", sfmt("%s got=%s want=%s", ctx.c_str(), show(got).c_str(), show(want).c_str()));
+        if (flagged) vrt::count("printf.file_with_error_indicator");
+    }
     // the overload without a FILE*: standard output, captured through a memory file put in place of descriptor 1
     {
         vrt::evals();
@@ -296,6 +320,7 @@ static void body()
     vrt::require("insert.cases", 1000);
     vrt::require("format.bytes_not_valid_utf8", 200);
     vrt::require("printf.stdout_captured", 5000);
+    vrt::require("printf.file_with_error_indicator", 1000);
     vrt::require("insert.with_U+0000", 100);
     vrt::require("writef.stream_with_pending_state", 1000);
     vrt::require("extract.tokens", 1000);
